@@ -46,6 +46,7 @@ def main():
     S.structure_stream(run, drv)
     S.setitem_stream(run, drv)
     S.reshape_stream(run, drv)
+    S.nested_stream(run, drv)
     import c16_extended as E
     E.advanced_reads(run)
     E.writes(run)
